@@ -63,6 +63,8 @@ def perturb_strategy(ctx):
         "tz": st.sampled_from([None, "UTC", "Asia/Tokyo", ":/nonexistent"]),
         "perturb": st.sampled_from([None, 0, 1, 85, 170, 255]),
         "arena": st.sampled_from([None, 1, 8]),
+        # without the per-thread cache freed chunks go through the bins, where MALLOC_PERTURB_ does overwrite them
+        "tcache0": st.sampled_from([False, False, True]),
         "toppad": st.sampled_from([None, 0, 1 << 20]),
         "envsize": st.sampled_from([0, 0, 100, 4096, 65536]),
         "aslr_off": st.booleans(),
@@ -87,6 +89,10 @@ def perturb_strategy(ctx):
         # lookahead paths are where the input channel (pipe, file, path argument) can make a difference
         st.fixed_dictionaries({"kind": st.just("text"), "text": _token_texts(), "wrap": st.sampled_from(["plain", "stringize", "lines"])}),
         st.fixed_dictionaries({"kind": st.just("text"), "text": _token_texts(), "wrap": st.sampled_from(["plain", "stringize", "lines"])}),
+        # macro definitions and invocations of every shape (C12's generator): the preprocessor's token arrays are allocated,
+        # grown and released while other parts still point into them
+        st.fixed_dictionaries({"kind": st.just("macros"), "text": _macro_texts()}),
+        st.fixed_dictionaries({"kind": st.just("macros"), "text": _macro_texts()}),
     )
     return st.fixed_dictionaries({"input": inp, "t": st.integers(0, 2), "E": st.booleans(),
                                   "perts": st.lists(pert, min_size=2, max_size=4)})
@@ -100,6 +106,11 @@ def _init_cases():
 def _token_texts():
     from .c13 import token_texts
     return token_texts()
+
+
+def _macro_texts():
+    from .c12 import token_cases
+    return token_cases()
 
 
 def mutate_strategy_lite(nf):
@@ -181,6 +192,8 @@ def _input_bytes(inp, ctx):
         if inp["wrap"] == "lines":
             return ("\n".join(t[i:i + 7] for i in range(0, len(t), 7)) + "\n").encode("utf-8", "surrogateescape"), "text.c"
         return (t + "\n").encode("utf-8", "surrogateescape"), "text.c"
+    if k == "macros":
+        return inp["text"].encode("utf-8", "surrogateescape"), "macros.c"
     if k == "mutant":
         from .c19 import apply_muts
         p = ctx.data["corpus"][inp["m"]["fi"] % len(ctx.data["corpus"])]
@@ -204,6 +217,8 @@ def _one_run(ctx, d, data, name, target, E, pt):
                 env[k] = v
         if pt["perturb"] is not None:
             env["MALLOC_PERTURB_"] = str(pt["perturb"])
+        if pt.get("tcache0"):
+            env["GLIBC_TUNABLES"] = "glibc.malloc.tcache_count=0" + (":glibc.malloc.perturb=%d" % pt["perturb"] if pt["perturb"] is not None else "")
         if pt["arena"] is not None:
             env["MALLOC_ARENA_MAX"] = str(pt["arena"])
         if pt["toppad"] is not None:
